@@ -99,8 +99,27 @@ def run (ctx):
     ctx.ob('R-AGREE', fin, "the connection switches to the default (connected-state) handlers", '_default_handlers' in norm(s_.value), norm(s_), (mod, s_), 'D2')
   # replay
   DP = c_ + '._deferred_port_status'
-  loops = [(s_, h, a) for (s_, h, a) in g.loop_nodes if isinstance(s_, ast.For) and norm(s_.iter) == DP]
-  ctx.floor('deferred port-status replay loop', len(loops), 1)
+  def is_dp (e):
+    if norm(e) == DP: return True
+    if isinstance(e, ast.Name):
+      d = q.single_def(fin.node, e.id)
+      return d is not None and norm(d) == DP
+    return False
+  loops = [(s_, h, a) for (s_, h, a) in g.loop_nodes if isinstance(s_, ast.For) and is_dp(s_.iter)]
+  # a draining loop (`while pending: handler(con, pending.pop(..))`) replays too - in the order the pops take
+  drains = []
+  for (s_, h, a) in g.loop_nodes:
+    if isinstance(s_, ast.While):
+      for n in g.loop_body_nodes(h):
+        for c in q.node_calls(n):
+          if call_name(c) in ('pop', 'popleft') and is_dp(c.func.value): drains.append((s_, h, a, c))
+  ctx.floor('deferred port-status replay loop', len(loops) + len(drains), 1)
+  for s_, h, a, c in drains:
+    fifo = call_name(c) == 'popleft' or (len(c.args) == 1 and norm(c.args[0]) == '0')
+    ctx.ob('R-ALL', fin, "every early message is replayed, in arrival order", fifo, "drained from the head" if fifo else
+           "the buffered messages are taken with `%s`, i.e. newest first: an early ADD followed by DELETE of the same port is replayed as DELETE, ADD and the deleted port stays in con.ports" % norm(c), (mod, c), 'D3')
+    good = bool(upn) and any(g.dominates(u, h) for u in upn) and not any(u in g.reachable(h) for u in upn)
+    ctx.ob('R-ORDER', fin, "early port-status messages are replayed only after ConnectionUp", good, "after the raises" if good else "replayed before ConnectionUp", (mod, s_), 'D3')
   for s_, h, a in loops:
     after_loop = g.reachable(h)
     good = bool(upn) and any(g.dominates(u, h) for u in upn) and not any(u in after_loop for u in upn)
@@ -195,6 +214,12 @@ def run (ctx):
   st = [s_ for t, v, s_, k in q.stores_in(cn.node) if isinstance(t, ast.Subscript) and q.mentions_attr(t, '_connections')]
   good = len(st) == 1 and norm(st[0].targets[0].slice) == cn.params[1] + '.dpid' and norm(st[0].value) == cn.params[1]
   ctx.ob('R-AGREE', cn, "a connection is registered under its own dpid (latest wins)", good, norm(st[0]) if st else "?", cn, 'D5')
+  gcn = q.cfg_of(cn)
+  stn = [q.enclosing_stmt_node(gcn, s_) for s_ in st]
+  iv = gcn.interval(lambda n: n in stn)
+  ctx.ob('R-EFFECT', cn, "every call of _connect stores the connection (a reconnecting datapath replaces its stale entry)", iv is not None and iv[0] >= 1,
+         "store count on every normal path %s" % (iv,) if iv is not None and iv[0] >= 1 else
+         "some path through _connect returns without storing the connection (store count %s): a datapath that reconnects before its stale connection closed gets ConnectionUp but never enters the registry - sendToDPID keeps using the dead connection" % (iv,), cn, 'D5')
   g4 = q.cfg_of(dc)
   dels = [q.enclosing_stmt_node(g4, s_) for k, s_ in q.mutations_of_attr(dc.node, '_connections') if k in ('delitem', 'call:pop')]
   ctx.floor('registry delete site', len(dels), 1)
